@@ -95,6 +95,8 @@ def target_case(draw):
                 elif f < 1 or abs(round(f) - f) > 1e-6 * f:
                     unit = None
         mods.append({"val": val, "unit": unit, "typed": draw(st.integers(0, 2)) == 0,
+                     # the assigned value may be given by reference to a helper node that holds it (also 0 / false)
+                     "via_ref": kind in ("float", "int", "bool") and val != "none" and draw(st.integers(0, 3)) == 0,
                      "addr": draw(st.sampled_from(["dotted", "indent", "mixed"])),
                      "noise": draw(st.integers(0, 2)) == 0})
     fail = draw(st.sampled_from([None] * 6 + ["type", "literal", "dimension", "constant", "undeclared"]))
@@ -171,6 +173,9 @@ def render_stages(case):
                 if val == "none":
                     val = "3"
         rhs = f"= {val}" + (f" {unit}" if unit else "")
+        if m.get("via_ref") and not (case["fail"] is not None and i == case["fail_at"]):
+            lines.append(f"helper{i} {case['type']} = {val}" + (f" {unit}" if unit else ""))
+            rhs = f"= {{?helper{i}}}"
         tpart = f" {tkw}" if typed else ""
         if m["addr"] == "dotted" or not case["groups"]:
             lines.append(f"{path}{tpart} {rhs}")
@@ -276,7 +281,13 @@ def _check(case, v):
     keys = list(tup)
     if keys.count(path) != 1:
         return v.fail("entries", f"{path} appears {keys.count(path)} times in {keys}:\n{text}")
-    want_order = ["before", path] + [f"noise{i}" for i, m in enumerate(case["mods"]) if m["noise"]] + ["after"]
+    want_order = ["before", path]
+    for i, m in enumerate(case["mods"]):
+        if m.get("via_ref"):
+            want_order.append(f"helper{i}")
+        if m["noise"]:
+            want_order.append(f"noise{i}")
+    want_order.append("after")
     if keys != want_order:
         return v.fail("order", f"keys {keys} != {want_order}:\n{text}")
     exp = model(case)
@@ -325,4 +336,6 @@ def _check(case, v):
         v.label("two_stage")
     if exp is None:
         v.label("final_none")
+    if any(m.get("via_ref") for m in case["mods"]):
+        v.label("value_by_reference")
     v.info = {"text": text}
